@@ -58,7 +58,7 @@ def main():
         # static checks against the mutated tree
         det = {}
         for pr in PROPS:
-            rc, o = sh("./axv check %s" % pr, VERIF, env={"AXV_REPO": WT, "AXV_TARGET_DIR": "/tmp/eval_axv_target", "AXV_EVIDENCE_DIR": "/tmp/eval_evidence"})
+            rc, o = sh("./axv check %s" % pr, VERIF, env={"AXV_REPO": WT, "AXV_TARGET_DIR": os.environ.get("EVAL_TARGET", "/tmp/eval_axv_target"), "AXV_EVIDENCE_DIR": "/tmp/eval_evidence"})
             if rc != 0:
                 det[pr] = [l.strip()[:400] for l in o.splitlines() if l.strip().startswith("violation")][:6] or [o[-300:]]
         res["static_violations"] = det
